@@ -2,7 +2,9 @@
    the extracted datatypes, no Extract Constant. *)
 From Coq Require Import ZArith List.
 From Coq Require Import ExtrOcamlBasic.
+Local Ltac c02_scan0 := idtac. (* separates the Require lines for the dependency scanner of lib/vv.py *)
 From VV Require Import Base.F64 Base.Values Interp.Strategy Mep.Genome Mep.Draws Mep.OpsDefs.
+Local Ltac c02_scan1 := idtac.
 Extraction "mep_model.ml" random_ind mutation crossover get_block replace destroy_block cse inc_age
   force_xover random_team team_mutation team_crossover ind_ok_b crossover_ok_b ind_same_b wf_sset_b
   params_swo_b provenance_b wf_genome_b cse_genome gene_cmp gene_cmp_old xover_of_Z Z_of_xover
